@@ -29,6 +29,10 @@ pub struct Perturb {
     pub cwd: u8,
     pub noise: Vec<(String, String)>,
     pub unset_home: bool,
+    /// 0 none; 1 stdout is a regular file; 2 the binary is started through a symlink; 3 umask 077;
+    /// 4 all three
+    #[serde(default)]
+    pub process: u8,
     pub label: String,
 }
 
@@ -129,6 +133,9 @@ fn gen_perturbs(r: &mut Rng, git: bool) -> Vec<Perturb> {
         }
         if r.chance(1, 8) {
             p.unset_home = true;
+        }
+        if r.chance(1, 4) {
+            p.process = 1 + r.below(4) as u8;
         }
         out.push(p);
     }
@@ -372,6 +379,13 @@ impl<'a> Exec<'a> {
         } else {
             Stdin::Null
         };
+        let exe = if p.process == 2 || p.process == 4 {
+            let link = self.rd.dir.join("zerv-via-symlink");
+            let _ = std::os::unix::fs::symlink(&self.ctx.zerv, &link);
+            Some(link)
+        } else {
+            None
+        };
         ZervCall {
             args: args.iter().map(OsString::from).collect(),
             cwd,
@@ -381,8 +395,10 @@ impl<'a> Exec<'a> {
             stdin,
             path: None,
             rm_cwd: false,
-            stdout: crate::proc::Stdout::Capture,
+            stdout: if p.process == 1 || p.process == 4 { crate::proc::Stdout::TempFile } else { crate::proc::Stdout::Capture },
             stderr: crate::proc::Stdout::Capture,
+            exe,
+            umask: if p.process == 3 || p.process == 4 { Some(0o077) } else { None },
         }
     }
 }
@@ -513,6 +529,9 @@ pub fn execute(ctx: &Ctx, scv: &serde_json::Value, rd: &RunDir, stats: &mut Stat
         }
         if p.noise.len() >= 5 {
             kinds.push("noise".into());
+        }
+        if p.process != 0 {
+            kinds.push(format!("process{}", p.process));
         }
         if kinds.is_empty() {
             kinds.push("repeat".into());
@@ -703,6 +722,7 @@ pub fn shrink(scv: &serde_json::Value) -> Vec<serde_json::Value> {
         if p.lc_time.is_some() { let mut q = p.clone(); q.lc_time = None; simpler.push(q); }
         if p.cwd != 0 { let mut q = p.clone(); q.cwd = 0; simpler.push(q); }
         if p.unset_home { let mut q = p.clone(); q.unset_home = false; simpler.push(q); }
+        if p.process != 0 { let mut q = p.clone(); q.process = 0; simpler.push(q); }
         if !p.noise.is_empty() {
             let mut q = p.clone(); q.noise.clear(); simpler.push(q);
             if p.noise.len() > 1 {
